@@ -33,7 +33,7 @@ CatChoiceSeq == <<
   [catKind |-> "str",  cats |-> <<Node("s:plain:10", <<Node("s:plain:11", <<Node("s:plain:12", <<Leaf("s:plain:13"), Leaf("s:plain:14")>>)>>)>>),
                                   Node("s:plain:20", <<Node("s:plain:21", <<Node("s:plain:22", <<Leaf("s:plain:23")>>)>>),
                                                        Node("s:plain:24", <<Node("s:plain:25", <<Leaf("s:plain:26")>>)>>)>>)>>],
-  [catKind |-> "num",  cats |-> <<Leaf("n:1"), Leaf("n:2.5"), Leaf("n:-3")>>],
+  [catKind |-> "num",  cats |-> <<Leaf("n:1"), Leaf("n:2.5"), Leaf("n:0"), Leaf("n:-3")>>],
   [catKind |-> "date", cats |-> <<Leaf("d:1899-12-31"), Leaf("d:1900-01-01"), Leaf("d:1900-02-28"), Leaf("d:1900-03-01"), Leaf("d:2024-12-31")>>],
   [catKind |-> "str",  cats |-> <<Leaf("s:plain:1"), Leaf("s:empty:0")>>],
   [catKind |-> "str",  cats |-> <<Node("s:plain:10", <<Leaf("s:empty:0"), Leaf("s:plain:12")>>)>>] >>
